@@ -20,13 +20,16 @@ def run(ctx):
     ctx.build_harness()
     r = ctx.tlc_ok("FileAsm", "FileAsm_quick.cfg" if q else "FileAsm_thorough.cfg", workers=12, timeout=3000, heap="12g", stack="64m")
     layouts = ctx.write_ndjson("layouts.ndjson", r.exported)
+    ri = ctx.tlc_ok("BoxLayouts", "BoxLayouts_quick.cfg" if q else "BoxLayouts_thorough.cfg", workers=14, timeout=3000, heap="12g", stack="64m")
+    inst = ctx.write_ndjson("inst.ndjson", ri.exported)
     tr = os.path.join(ctx.specdir, "trace.ndjson")
-    s = core.absorb(ctx, ctx.harness(["c03-drive", "-layouts", layouts, "-trace", tr], timeout=3000))
+    s = core.absorb(ctx, ctx.harness(["c03-drive", "-layouts", layouts, "-instances", inst, "-trace", tr], timeout=3000))
     if s["extra"]["objects"] < 500:
         raise core.Machinery("object pool unexpectedly small: %d" % s["extra"]["objects"])
     ctx.validate_traces_all("Interchange", "Interchange.cfg", tr, keyfn=keyfn, max_rejects=12, groupfn=lambda h: (h.get("type"), h.get("obj", "").split(":")[0].split("#")[0].split("(")[0]), heap="12g",
                             what="Interchange.tla rejected a recorded pair of outcomes")
-    ctx.cov["bounds"] = {"objects": s["extra"]["objects"], "file_layouts": len(r.exported), "trace_events": s["extra"]["events"]}
+    ctx.cov["bounds"] = {"objects": s["extra"]["objects"], "file_layouts": len(r.exported), "box_layout_instances": s["extra"]["instances"], "trace_events": s["extra"]["events"]}
     ctx.cov["rule"] = ("pool as for C02 plus every FileAsm.tla layout decodable with default options; per object Encode vs EncodeSW; per "
-                       "top-level box and file DecodeBox/DecodeFile vs DecodeBoxSR/DecodeFileSR on canonical bytes; dispatch-table keys")
+                       "top-level box and file DecodeBox/DecodeFile vs DecodeBoxSR/DecodeFileSR on canonical bytes; every BoxLayouts.tla instance (all box shapes) "
+                       "through both box decoders, both file decoders and both encoders; dispatch-table keys")
     return ctx.finish("model_checking")
